@@ -41,6 +41,9 @@ func verifOpts(allowed ...string) *Opts {
 	}
 }
 
+// fxBuf is the outbound buffer size of the handlers the fixtures create.
+var fxBuf = 64
+
 type fx struct {
 	h      *simplefixgo.DefaultHandler
 	s      *Session
@@ -61,7 +64,7 @@ func (f *fx) watch() {
 // newAcceptor builds an accepting session on the given store and runs it.
 func newAcceptor(st *memory.Storage, min, max int, closeTimeout time.Duration, allowed ...string) *fx {
 	f := &fx{st: st}
-	f.h = simplefixgo.NewAcceptorHandler(context.Background(), "35", 64)
+	f.h = simplefixgo.NewAcceptorHandler(context.Background(), "35", fxBuf)
 	s, err := NewAcceptorSession(verifOpts(allowed...), f.h,
 		&LogonSettings{LogonTimeout: time.Second, CloseTimeout: closeTimeout, HeartBtLimits: &IntLimits{Min: min, Max: max}},
 		func(r *LogonSettings) error {
@@ -85,7 +88,7 @@ func newAcceptor(st *memory.Storage, min, max int, closeTimeout time.Duration, a
 // newInitiator builds an initiating session and runs it (which sends the Logon).
 func newInitiator(st *memory.Storage, hb int, method, user, pass string, closeTimeout time.Duration) *fx {
 	f := &fx{st: st}
-	f.h = simplefixgo.NewInitiatorHandler(context.Background(), "35", 64)
+	f.h = simplefixgo.NewInitiatorHandler(context.Background(), "35", fxBuf)
 	s, err := NewInitiatorSession(f.h, verifOpts("0"),
 		&LogonSettings{TargetCompID: "SRV", SenderCompID: "CLI", HeartBtInt: hb, EncryptMethod: method, Username: user, Password: pass,
 			LogonTimeout: time.Second, CloseTimeout: closeTimeout}, st, st)
